@@ -5,16 +5,16 @@ SPEC = {
     "bins": ["c15"],
     "model_targets": ["Fmt/FmtCheck.vo", "Gen/FmtRules.vo", "Fmt/Pipeline.vo", "Fmt/Stages.vo"],
     "proof_targets": ["Fmt/ProcessorProofs.vo", "Fmt/BubbleProofs.vo", "Fmt/FmtRulesProofs.vo", "Fmt/StagesProofs.vo", "Fmt/PipelineProofs.vo", "Fmt/YrFmtProofs.vo"],
-    "generated_obligations": ["safe_stages_b Gen.FmtRules.stages = true", "forallb bubble_safe_b Gen.FmtRules.bubbles = true", "ok_pipeline false Gen.FmtRules.pipeline = true"],
+    "generated_obligations": ["safe_stages_b Gen.FmtRules.stages = true", "forallb bubble_safe_b Gen.FmtRules.bubbles = true", "ok_pipeline false Gen.FmtRules.pipeline = true", "forallb line_break_stage_sees_comments Gen.FmtRules.stages = true"],
     "assumptions": [
         "proved for the Processor engine and the Bubble stage as modelled in Fmt/Processor.v and Fmt/Bubble.v (tied to the code by differential runs of the real engine through the cfg(yara_x_verif) hook fmt/src/verif_fmt.rs); rule conditions are arbitrary functions of the context that entail the conjuncts extracted by the translator",
-        "the five stages that are not rule-based (CommentProcessor, FormatHexPatterns, Align, AddIndentation, RemoveTrailingSpaces) are modelled by hand as coded (Fmt/Stages.v, byte-exact tokens) and compared with the real stages token for token through the hook; the end-to-end theorem is about completed runs of the composition of the stage models in the order extracted from format_impl: that no stage panics, that Processor stages terminate and that Align never ends its stream early (an alignment block that expands to nothing makes the real iterator return None with input left) are hypotheses of the theorem, evaluated on the implementation only, as are idempotence and the front/back ends (tokenizer/CST -> tokens, write_to)",
+        "the five stages that are not rule-based (CommentProcessor, FormatHexPatterns, Align, AddIndentation, RemoveTrailingSpaces) are modelled by hand as coded (Fmt/Stages.v, byte-exact tokens) and compared with the real stages token for token through the hook; the end-to-end theorem is about completed runs of the composition of the stage models in the order extracted from format_impl: that no stage panics, that Processor stages terminate and that Align never ends its stream early (an alignment block that expands to nothing makes the real iterator return None with input left) are hypotheses of the theorem, evaluated on the implementation only, as are idempotence and the front end (tokenizer/CST -> tokens); the back end write_to (column bookkeeping in BYTES, re-indentation of the continuation lines of comments) is modelled as coded (Stages.write_to) and compared byte for byte with the real one through the hook, but not part of the end-to-end theorem",
         "the end-to-end theorem reads comments as their sequence of lines without leading whitespace (the indentation of continuation lines), independent of how consecutive comments are grouped into tokens, and assumes the initial stream has no typed comment tokens (Tokens only produces raw Comment tokens)",
         "significant tokens are compared as (SyntaxKind, text) of the yara_x_parser token stream, comments modulo the indentation of continuation lines and the kind of line break inside them",
         "input tab sizes 1, 2, 4, 8 (a tab size of 0 is accepted by the API but makes the formatter's own tab-indented output unreadable to it; not counted)",
     ],
     "trusted_base": ["Gen/FmtCats.v, Gen/FmtRules.v: token categories, per-rule action and drop guards of every Processor stage, Bubble classes; regenerated from fmt/src/tokens/mod.rs, fmt/src/processor/mod.rs, fmt/src/lib.rs",
-                     "fmt/src/verif_fmt.rs (hook): data view of tokens, Processor, Bubble and the five hand-written stages",
+                     "fmt/src/verif_fmt.rs (hook): data view of tokens, Processor, Bubble, the five hand-written stages and write_to",
                      "`yr` built from /repo/cli into .cache/target-cli (shared with C20), when it builds in time"],
 }
 
@@ -22,7 +22,8 @@ RULE = ("CFmt: sources built from lexeme lists (imports, includes, 1-4 rules wit
         "conditions of depth 1-5 incl. for/of/with/at/in, field access, string operators) joined by 5 spacing styles (tidy, messy, "
         "heavily commented with //, /* */ and multi-line comments in every gap, one-line, CRLF+tabs, Unicode spaces), non-ASCII in comments "
         "and literals; 1 in 14 sources has tail comments continued by aligned comment lines with tab/space indentation, formatted with the "
-        "matching tab size and mostly Indentation::Tabs; "
+        "matching tab size and mostly Indentation::Tabs, or multi-line /* */ comments after code on the same line (incl. non-ASCII literals "
+        "before them), or a /* */ comment right after `strings:` / `meta:` with the definitions on the same line; "
         "20% token-level mutations (delete/dup/swap/garbage/truncate), 10% byte-level mutations incl. invalid UTF-8; each under 2 rows of a "
         "pairwise covering array over the 7 boolean options x 6 indentations x 4 input tab sizes (+ random rows); checked per case: no "
         "panic/hang, significant tokens of output = input, modified flag = (output != input), second pass changes nothing, input and output compile alike (same error codes, or same verdicts and matches on 3 buffers; every third case in the quick tier). "
@@ -32,7 +33,8 @@ RULE = ("CFmt: sources built from lexeme lists (imports, includes, 1-4 rules wit
         "else untouched (modification time), exit status. "
         "CStage: the real CommentProcessor (5 tab sizes; half of the streams directed at its column bookkeeping: tab/space indentation, code, "
         "a comment, follow-up comments placed in the same column counting tabs as tab_size / as 1 / off by one) / FormatHexPatterns / Align / AddIndentation (5 settings) / RemoveTrailingSpaces vs "
-        "Fmt/Stages.v token for token, on real token streams (raw, or after the real comment and whitespace-dropping stages) with control "
+        "Fmt/Stages.v token for token, and the real write_to vs Stages.write_to byte for byte (token streams after the real comment stage, with "
+        "tabs, indentation-free multi-line comments after non-ASCII text), on real token streams (raw, or after the real comment and whitespace-dropping stages) with control "
         "tokens, spaces and line breaks sprinkled in (alignment blocks incl. unbalanced/nested/empty ones). "
         "CProc/CBubble/CCats: the real Processor/Bubble/Token::category (hook) vs the Coq model on real token streams of small sources with "
         "1-4 generated rules (conditions over token(+-1..3).is/eq/in_rule with and/or/not; drop/copy/insert incl. Begin/End) and 8 "
@@ -90,8 +92,8 @@ MANIFEST = {
                    "no panic/hang) are evaluated on the implementation over generated sources x a pairwise covering array of the options."),
     "level_note": ("Partial: the end-to-end theorem is about completed runs (hypotheses: no stage panics, Processor stages terminate, "
                    "Align does not end its stream early - it can, when an alignment block expands to nothing; not observed through the "
-                   "Formatter); conditions of Processor rules are abstracted to the extracted conjuncts; the tokenizer/CST front end and "
-                   "write_to are outside the model; idempotence is tested, not proved, and fails on the unchanged tree in several "
+                   "Formatter); conditions of Processor rules are abstracted to the extracted conjuncts; the tokenizer/CST front end is "
+                   "outside the model, write_to is modelled and compared but not in the theorem; idempotence is tested, not proved, and fails on the unchanged tree in several "
                    "comment-related shapes and on sources with syntax errors (known findings). Trusted: Coq kernel, translator "
                    "gen_fmtrules.py, the harness, the hook fmt/src/verif_fmt.rs."),
     "technique": "Coq proof over an engine model with source-generated rule descriptions + differential correspondence (vm_compute) + property evaluation on the implementation",
